@@ -67,6 +67,9 @@ AtomicCap == ~CapIdle => act'.op \in {"CapStep", "CapEnd", "FlushDone"}
 SimBias == /\ (act'.op = "Update" /\ act'.res # "ok") => act.op # "Update"
            /\ act'.op = "CapNoop" => act.op \notin {"CapNoop", "Update"}
            /\ act'.op = "CloseReader" => act.op # "OpenReader"
+(* the last step of a printed behaviour is not an Update (TLC prints one line per successor of *)
+(* the last state; updates have many successors and add nothing at the end of a behaviour)     *)
+FinalStep == (Depth > 0 /\ Len(hist) = Depth - 1) => act'.op # "Update"
 Emit == IF Depth > 0 /\ Len(hist) = Depth
         THEN PrintT(<<"MBT", ToJson([keys |-> Key, init |-> [async |-> hist[1].st.async], steps |-> hist])>>)
         ELSE TRUE
